@@ -130,7 +130,7 @@ def _col_values(kind, nullmode, n, rng, extra):
 
 PART_POOLS = {
     'pstr': ['a', 'b', 'xy', 'x', 'Z z', 'A#1', '50%', "it's", 'q?',
-             '[x]', 'a^b', 'é'],
+             '[x]', 'a^b', 'é', ''],
     'pnum': ['1', '02', '3.5', '10'],         # numeric-looking text
     'pint': [0, 1, 7, -3, 12],
     'pbool': [True, False],
